@@ -5,12 +5,14 @@ import NucsProofs.Examples.Knapsack
 import NucsProofs.Examples.Schur
 import NucsProofs.Examples.Circuit
 import NucsProofs.Examples.MagicSquare
+import NucsProofs.Examples.MagicSquareSym
 import NucsProofs.Examples.Sudoku
 import NucsProofs.Examples.Bibd
 import NucsProofs.Examples.Alpha
 import NucsProofs.Examples.Donald
 import NucsProofs.Examples.Tsp
 import NucsProofs.Examples.Golomb
+import NucsProofs.Examples.GolombSym
 import NucsProofs.Examples.Quasigroup
 import NucsProofs.Examples.Sports
 import NucsProofs.Examples.Counts
@@ -39,8 +41,14 @@ import NucsProofs.Examples.Counts
   C02/C03 and `Sol ↔ Valid`; queens 5–8 and Latin squares of order 3 by a separately verified enumerator of the
   `Valid` predicate, tied back to the solver by `C20_solver_count` (any admitted configuration returns exactly
   that many vectors: `C20_solver_count_queens_8`).
+  SYMMETRY BREAKING PRESERVES satisfiability and optimum — proved for the Golomb model for every number of marks
+  (`C20_golomb_sb_preserves`, `C20_golomb_sb_same_lengths`: mirror image; NucsProofs/Examples/GolombSym.lean — the proof
+  attempt exposed the defect repaired by /repo cfc4e15: with 2 marks the constraint compared a variable with itself).
+  and for the magic-square model for every order (`C20_magicSquare_sb_iff`: the flag adds exactly four corner orderings;
+  `C20_magicSquare_sb_preserves`, `C20_magicSquare_sb_sat_iff`: transpose and vertical flip of a normal magic square are normal
+  magic squares, the corners hold distinct numbers, one of the eight images satisfies the orderings; MagicSquareSym.lean).
   Not proved: the larger literature counts, preservation of satisfiability and optimum by symmetry
-  breaking in general (tested).  Noted by the count proofs: for ODD n the shipped symmetry-breaking Schur model
+  breaking for the remaining flagged models — Schur, BIBD, quasigroup, sports scheduling (tested).  Noted by the count proofs: for ODD n the shipped symmetry-breaking Schur model
   posts lexicographic_leq on 3n variables (an odd number), outside that constraint's documented shape; the
   contract of lexicographic_leq and its local theorems were then generalised to odd arity (the last variable
   is ignored, as the code does).
